@@ -549,6 +549,16 @@ func (sc *serverConn) handleStreams() {
 		markClosed(strmID, strm.weReset)
 		strms.Del(strmID)
 
+		// A stream that is reset while its header block is still arriving (the
+		// request timer can do that) leaves the rest of the block behind. It
+		// has to be decoded like any other, starting from what this stream had
+		// carried over.
+		if strm.weReset && !strm.headersFinished && sc.discardID != strmID {
+			sc.discardID = strmID
+			sc.discardPrev = append(sc.discardPrev[:0], strm.previousHeaderBytes...)
+			sc.discardFields = strm.blockFields
+		}
+
 		sc.closeBodyStream(strm)
 
 		// A handler still owns ctx, so neither the memory nor the concurrency
